@@ -431,7 +431,10 @@ Fixpoint eps_pairs (h : hist) (epoch : Z) (ps : list (Z * Z)) (seen : list (Z * 
   : result (list (Z * Z) * list Q) :=
   match ps with
   | [] => Ok (seen, acc)
-  | (c1, c2) :: rest =>
+  | (a, b) :: rest =>
+      (* c1, c2 = sorted(pair): the pair is identified independently of the iteration order (the code sorts
+         the id strings; every use below is symmetric in c1, c2, so any fixed total order does) *)
+      let c1 := Z.min a b in let c2 := Z.max a b in
       if mem_pair (c1, c2) seen then eps_pairs h epoch rest seen acc else
       match lookup c1 (h_results h), lookup c2 (h_results h) with
       | Some row1, Some row2 =>
